@@ -5,14 +5,19 @@
    `self.config` and (ii) the file system, as far as property C19 is concerned.
    The term for the current working tree of the repository is GENERATED on
    every run by translator/c19_effects2coq.py (Gen/C19_TrainerEffects.v); the
-   term `reference` at the end of this file is a frozen, hand-checked snapshot
-   of the pinned tree used for the once-and-for-all statements in Props.v.
+   term `reference b14 b15` at the end of this file is a frozen, hand-checked
+   snapshot used for the once-and-for-all statements in Props.v:
+   `reference true true` = the current tree (/repo HEAD, fixes 9c1a762 and
+   0a40184 in), `reference false _` / `reference _ false` = the pinned tree
+   before those fixes (historic).
 
    Semantics (`exec`): a run is determined by an environment `env` = a
    valuation of the named run flags, of the opaque (data-dependent) conditions,
    of loop iteration counts, and a fault schedule (external exceptions that
    may strike before any atomic effect inside a `try` body — elsewhere an
-   exception simply ends the process, i.e. is a prefix of the trace).  The
+   exception simply ends the process, i.e. is a prefix of the trace; the
+   `finally` block of a try is itself fault-free unless it sits inside another
+   try body).  The
    result is the list of executed atomic effects (the trace), and the
    outcome.  A crash point ("the process dies between two writes") is a PREFIX
    of the trace.
@@ -48,8 +53,10 @@ Inductive flag :=
 | DeleteChunks  (* data_config.delete_chunks_after_training *)
 | Structured    (* the supplied config is a typed (builder-made) structured config *)
 | WandbOffline  (* trainer_config.wandb.wandb_mode == "offline" (else train() logs in with the key) *)
-| MemFallback.  (* the in-memory cache does not fit: `_create_data_loaders_torch_dataset` switches a
+| MemFallback   (* the in-memory cache does not fit: `_create_data_loaders_torch_dataset` switches a
                    torch_dataset run to np_chunks mid-run (chunks under ./train_chunks, ./val_chunks) *)
+| SaveTopKZero  (* round 4: trainer_config.model_ckpt.save_top_k == 0 ("no models are saved") *)
+| SaveLast.     (* round 4: trainer_config.model_ckpt.save_last is true (None / False = no last.ckpt) *)
 
 Inductive cond :=
 | CTrue | CFalse
@@ -64,7 +71,12 @@ Inductive atom :=
 | AWriteMasked (f : file) (ctor : bool)   (* a copy with the key blanked is written into f *)
 | ASet (path : nat) (declared : bool)     (* mutation of the live config at `path`; declared = the
                                              field exists in the attrs schema of the structured config *)
-| ARm (t : rmt)                     (* the chunk directory t is removed (if it exists) *)
+| ARm (t : rmt)                     (* the chunk directory t is removed (if it exists).  Idealisation: the code
+                                       calls `shutil.rmtree(..., ignore_errors=True)`, so a removal that fails is
+                                       silent there and "done" here *)
+| AMkChunks (t : rmt)               (* round 4: from here on chunk files of kind t exist — they are created by this
+                                       step (dataset constructor with np_chunks / the get_bin_files subprocess) or
+                                       are read by it (re-used chunks: the step fails if they are absent) *)
 | ARaise                            (* explicit `raise` statement (input validation) *)
 | ACall (id : nat).                 (* an external call with no modelled effect on files: a point where an
                                        external exception may strike.  id 0 = the return of Trainer.fit,
@@ -291,13 +303,13 @@ Definition flag_eqb (a b : flag) : bool :=
   | RankZero, RankZero | UseWandb, UseWandb | SaveCkpt, SaveCkpt | FwTorch, FwTorch
   | FwNpChunks, FwNpChunks | FwLitdata, FwLitdata | UseExisting, UseExisting
   | DeleteChunks, DeleteChunks | Structured, Structured | WandbOffline, WandbOffline
-  | MemFallback, MemFallback => true
+  | MemFallback, MemFallback | SaveTopKZero, SaveTopKZero | SaveLast, SaveLast => true
   | _, _ => false
   end.
 
 Definition all_flags : list flag :=
   [RankZero; UseWandb; SaveCkpt; FwTorch; FwNpChunks; FwLitdata; UseExisting; DeleteChunks; Structured;
-   WandbOffline; MemFallback].
+   WandbOffline; MemFallback; SaveTopKZero; SaveLast].
 
 Definition upd (F : flag -> bool) (g : flag) (b : bool) : flag -> bool :=
   fun f => if flag_eqb f g then b else F f.
@@ -308,7 +320,7 @@ Fixpoint envs (fs : list flag) : list (flag -> bool) :=
   | g :: r => flat_map (fun F => [upd F g false; upd F g true]) (envs r)
   end.
 
-Definition all_envs : list (flag -> bool) := envs all_flags.   (* 2^11 = 2048 valuations *)
+Definition all_envs : list (flag -> bool) := envs all_flags.   (* 2^13 = 8192 valuations *)
 
 (* a *valid cell* of the property's grid: single process; exactly one of the THREE data
    frameworks (in-memory, np chunks, litdata); chunks created by this run or — chunk frameworks
@@ -351,6 +363,12 @@ Definition is_rm (t : rmt) (a : atom) : bool :=
   | ARm RmTrain, RmTrain | ARm RmVal, RmVal | ARm RmLitTrain, RmLitTrain | ARm RmLitVal, RmLitVal => true
   | _, _ => false
   end.
+Definition is_mk (t : rmt) (a : atom) : bool :=
+  match a, t with
+  | AMkChunks RmTrain, RmTrain | AMkChunks RmVal, RmVal | AMkChunks RmLitTrain, RmLitTrain
+  | AMkChunks RmLitVal, RmLitVal => true
+  | _, _ => false
+  end.
 Definition never (_ : atom) : bool := false.
 
 (* (1) the key monitor: state = "the live configuration contains the key";
@@ -390,8 +408,11 @@ Definition initial_config_contract (p : eff) : bool :=
 
 (* (3) the last training_config.yaml is written after the last mutation:
    state = "mutated since the last write of training_config.yaml (or never written)" *)
+(* round 4 (review finding 4): a RELOAD of the configuration after the last save makes the file stale
+   just like a mutation does *)
+Definition changes_config (a : atom) : bool := is_set a || is_reload a.
 Definition final_mon : mon :=
-  {| gen := is_set; kill := is_write_to FTraining; bad := never |}.
+  {| gen := changes_config; kill := is_write_to FTraining; bad := never |}.
 
 Definition final_config_contract (p : eff) : bool :=
   forall_envs (fun F => implb (F RankZero) (ends_clean final_mon F p)).
@@ -410,12 +431,24 @@ Definition final_config_contract_faults (p : eff) : bool :=
      (let r := ai final_mon F true false p true in
       a_ok r && av_le (a_nrm r) false && av_le (a_xo r) false)).
 
-(* (4) checkpoints: none unless save_ckpt; one on every completed run when save_ckpt *)
+(* (4) checkpoints.  The file is written by Lightning's `ModelCheckpoint(save_top_k, save_last)` callback, which the
+   trainer constructs when `save_ckpt` is on: a top-k file unless `save_top_k == 0` ("If save_top_k == 0, no models
+   are saved", ModelCkptConfig), a `last.ckpt` when `save_last` is true.  So "checkpointing is on" of the property
+   = `ckpt_req`: `save_ckpt` AND the callback's options ask for at least one file.  `save_ckpt` with
+   `save_top_k = 0` and `save_last` None / False is the user asking for ZERO checkpoints (documented option values),
+   and none is written.  Contract: none unless ckpt_req (any faults); one on every completed run when ckpt_req. *)
+Definition ckpt_saves (F : flag -> bool) : bool := negb (F SaveTopKZero) || F SaveLast.
+Definition ckpt_req (F : flag -> bool) : bool := F SaveCkpt && ckpt_saves F.
+
 Definition no_ckpt_mon : mon := {| gen := never; kill := never; bad := is_write_to FCkpt |}.
 Definition ckpt_written_mon : mon := {| gen := never; kill := is_write_to FCkpt; bad := never |}.
 
 Definition ckpt_contract (p : eff) : bool :=
-  forall_envs (fun F => implb (negb (F SaveCkpt)) (a_ok (ai no_ckpt_mon F true false p true))) &&
+  forall_envs (fun F => implb (negb (ckpt_req F)) (a_ok (ai no_ckpt_mon F true false p true))) &&
+  forall_envs (fun F => implb (ckpt_req F) (ends_clean ckpt_written_mon F p)).
+
+(* the round-2 reading "save_ckpt alone => a checkpoint" (withdrawn: the code does not satisfy it) *)
+Definition ckpt_contract_save_ckpt_alone (p : eff) : bool :=
   forall_envs (fun F => implb (F SaveCkpt) (ends_clean ckpt_written_mon F p)).
 
 (* (5) chunk deletion: never unless requested; when requested, on EVERY path that is not an
@@ -425,8 +458,11 @@ Definition ckpt_contract (p : eff) : bool :=
    memory fallback of an in-memory run, litdata chunks under the litdata framework *)
 Definition np_in_use (F : flag -> bool) : bool := F FwNpChunks || (F FwTorch && F MemFallback).
 
-Definition rm_req (F : flag -> bool) (t : rmt) : bool :=
-  F DeleteChunks && match t with RmTrain | RmVal => np_in_use F | RmLitTrain | RmLitVal => F FwLitdata end.
+(* the run creates or re-uses chunk files of kind t *)
+Definition chunks_in_use (F : flag -> bool) (t : rmt) : bool :=
+  match t with RmTrain | RmVal => np_in_use F | RmLitTrain | RmLitVal => F FwLitdata end.
+
+Definition rm_req (F : flag -> bool) (t : rmt) : bool := F DeleteChunks && chunks_in_use F t.
 
 Definition rm_requested (F : flag -> bool) : bool := np_in_use F && F DeleteChunks.   (* = rm_req F RmTrain *)
 
@@ -434,6 +470,13 @@ Definition no_rm_mon_t (t : rmt) : mon := {| gen := never; kill := never; bad :=
 Definition no_rm_mon : mon :=
   {| gen := never; kill := never; bad := fun a => is_rm RmTrain a || is_rm RmVal a |}.
 Definition rm_done_mon (t : rmt) : mon := {| gen := never; kill := is_rm t; bad := never |}.
+(* round 4 (review finding 2): state = "chunk files of kind t may exist": set by every creation / use of
+   chunks, cleared by the removal.  Entered in state `true` (chunks may pre-exist: re-use).  Ending in state
+   `false` = the trace has a removal of t AFTER the last creation of t — not merely "some removal occurs" *)
+Definition chunks_mon (t : rmt) : mon := {| gen := is_mk t; kill := is_rm t; bad := never |}.
+Definition no_mk_mon_t (t : rmt) : mon := {| gen := never; kill := never; bad := is_mk t |}.
+(* are chunk files of kind t present after the trace, if they were (s0) before it? *)
+Definition chunks_present (s0 : bool) (t : rmt) (tr : list atom) : bool := mfinal (chunks_mon t) s0 tr.
 
 Definition all_rmt : list rmt := [RmTrain; RmVal; RmLitTrain; RmLitVal].
 
@@ -442,7 +485,7 @@ Definition sel_F15 (F : flag -> bool) : bool := F Structured && F UseWandb.
 
 Definition rm_all_paths (excuse : (flag -> bool) -> bool) (t : rmt) (p : eff) : bool :=
   forall_envs (fun F => implb (valid_cell F && rm_req F t && negb (excuse F))
-     (let r := ai (rm_done_mon t) F true false p true in
+     (let r := ai (chunks_mon t) F true false p true in
       a_ok r && av_le (a_nrm r) false && av_le (a_xo r) false)).
 
 Definition no_excuse (_ : flag -> bool) : bool := false.
@@ -452,11 +495,17 @@ Definition chunk_guard_t (t : rmt) (p : eff) : bool :=
 
 Definition chunk_guard_contract (p : eff) : bool := forallb (fun t => chunk_guard_t t p) all_rmt.
 
+(* round 4: chunk files of kind t are created only by a run that uses that kind *)
+Definition mk_guard_t (t : rmt) (p : eff) : bool :=
+  forall_envs (fun F => implb (negb (chunks_in_use F t)) (a_ok (ai (no_mk_mon_t t) F true false p true))).
+
+Definition mk_guard_contract (p : eff) : bool := forallb (fun t => mk_guard_t t p) all_rmt.
+
 Definition chunk_contract (p : eff) : bool :=
-  chunk_guard_contract p && forallb (fun t => rm_all_paths no_excuse t p) all_rmt.
+  chunk_guard_contract p && mk_guard_contract p && forallb (fun t => rm_all_paths no_excuse t p) all_rmt.
 
 Definition chunk_contract_unless_F15 (p : eff) : bool :=
-  chunk_guard_contract p && forallb (fun t => rm_all_paths sel_F15 t p) all_rmt.
+  chunk_guard_contract p && mk_guard_contract p && forallb (fun t => rm_all_paths sel_F15 t p) all_rmt.
 
 (* (6) completion: on a valid cell, without external faults, the run ends normally
    or by an explicit rejection — never by another exception *)
@@ -505,7 +554,8 @@ Fixpoint flag_determined (p : eff) : bool :=
 Inductive fwk := KMem | KNp | KLit.
 
 Record cell := { c_wandb : bool; c_ckpt : bool; c_fw : fwk; c_delete : bool; c_structured : bool;
-                 c_offline : bool; c_existing : bool; c_memfb : bool }.
+                 c_offline : bool; c_existing : bool; c_memfb : bool;
+                 c_topk0 : bool; c_savelast : bool }.
 
 Definition cell_flags (c : cell) : flag -> bool := fun f =>
   match f with
@@ -520,6 +570,8 @@ Definition cell_flags (c : cell) : flag -> bool := fun f =>
   | Structured => c_structured c
   | WandbOffline => c_offline c
   | MemFallback => c_memfb c
+  | SaveTopKZero => c_topk0 c
+  | SaveLast => c_savelast c
   end.
 
 (* environment of a cell: every opaque condition has the value `ov`, loops run once; an
@@ -535,13 +587,13 @@ Definition bools : list bool := [false; true].
 
 Definition all_cells : list cell :=
   flat_map (fun w => flat_map (fun k => flat_map (fun fw => flat_map (fun d => flat_map (fun s =>
-  flat_map (fun o => flat_map (fun x => map (fun m =>
+  flat_map (fun o => flat_map (fun x => flat_map (fun m => flat_map (fun z => map (fun l =>
     {| c_wandb := w; c_ckpt := k; c_fw := fw; c_delete := d; c_structured := s;
-       c_offline := o; c_existing := x; c_memfb := m |})
-    bools) bools) bools) bools) bools) [KMem; KNp; KLit]) bools) bools.
+       c_offline := o; c_existing := x; c_memfb := m; c_topk0 := z; c_savelast := l |})
+    bools) bools) bools) bools) bools) bools) bools) [KMem; KNp; KLit]) bools) bools.
 
 (* observable events of a trace: writes with key bits, chunk removals, the wandb login *)
-Inductive obs := OWrite (f : file) (ctor key : bool) | ORm (t : rmt) | OLogin.
+Inductive obs := OWrite (f : file) (ctor key : bool) | ORm (t : rmt) | OLogin | OMk (t : rmt).
 
 Fixpoint obs_of (key : bool) (tr : list atom) : list obs :=
   match tr with
@@ -551,6 +603,7 @@ Fixpoint obs_of (key : bool) (tr : list atom) : list obs :=
   | AWrite f c :: r => OWrite f c key :: obs_of key r
   | AWriteMasked f c :: r => OWrite f c false :: obs_of key r
   | ARm t :: r => ORm t :: obs_of key r
+  | AMkChunks t :: r => OMk t :: obs_of key r
   | ACall 1 :: r => OLogin :: obs_of key r
   | _ :: r => obs_of key r
   end.
@@ -617,6 +670,14 @@ Definition first_leaking_cell (p : eff) : option cell := find (fun c => negb (no
 Definition cell_completes (p : eff) (c : cell) : bool :=
   let o := result (cenv p c None) p in outcome_ok o || outcome_rejected o.
 
+(* round 4 (review finding 3): `completes` accepts an explicit rejection (ExnInvalid) as an outcome of a valid
+   cell, because the data-dependent part of validity is opaque.  This checker closes the gap for a given term:
+   every valid cell, under the data valuation the harness ties to real runs (`cenv`), ends Ok — so the
+   `result = Ok` premises of the artifact theorems are met on every valid cell and an unconditional or
+   flag-guarded `raise` in the program is detected *)
+Definition valid_cells_complete (p : eff) : bool :=
+  forallb (fun c => implb (valid_cell (cell_flags c)) (outcome_ok (result (cenv p c None) p))) all_cells.
+
 Definition first_failing_cell (p : eff) : option cell :=
   find (fun c => valid_cell (cell_flags c) && negb (cell_completes p c)) all_cells.
 
@@ -641,6 +702,7 @@ Definition same_on_cells (p q : eff) : bool :=
                                 is_write_to f1 (AWrite f2 true) && Bool.eqb c1 c2 && Bool.eqb k1 k2
                             | (ORm t1, ORm t2) => is_rm t1 (ARm t2)
                             | (OLogin, OLogin) => true
+                            | (OMk t1, OMk t2) => is_rm t1 (ARm t2)
                             | _ => false end) (combine o1 o2) &&
          match r1, r2 with Ok, Ok | ExnKI, ExnKI | ExnOther, ExnOther | ExnInvalid, ExnInvalid => true
                          | _, _ => false end
@@ -663,6 +725,7 @@ Definition robs (o : obs) : rdr :=
   | OWrite f c k => fun s => "[""w""," ++ rquoted (file_name f) ("," ++ rbool c ("," ++ rbool k ("]" ++ s)))
   | ORm t => fun s => "[""rm""," ++ rquoted (rmt_name t) ("]" ++ s)
   | OLogin => fun s => "[""login""]" ++ s
+  | OMk t => fun s => "[""mk""," ++ rquoted (rmt_name t) ("]" ++ s)
   end.
 
 Definition rrun (r : list obs * outcome) : rdr :=
@@ -671,11 +734,17 @@ Definition rrun (r : list obs * outcome) : rdr :=
 Definition rcell (c : cell) : rdr :=
   rlist rbool [c_wandb c; c_ckpt c; match c_fw c with KNp => true | _ => false end; c_delete c; c_structured c].
 
-(* ---- frozen snapshot of the pinned tree (hand-checked against the source;
-        the per-run obligations use the GENERATED term, not this one; every run also has the
-        kernel check `same_on_cells generated (reference true true)`) -------- *)
+(* ---- frozen snapshot of the trainer (hand-checked against the source; the per-run obligations use the
+        GENERATED term, not this one; every run also has the kernel check
+        `same_on_cells generated (reference true true)`) --------
 
-(* `fixed14` = the key is blanked right after the configuration is loaded (fix F14);
+   `reference true true`   = the CURRENT tree (/repo HEAD: fixes F14 = 9c1a762 and F15 = 0a40184 applied), tied to
+                             the code on every run by `same_on_cells`;
+   `reference false _` / `reference _ false` = the PINNED tree before fix 9c1a762 / before fix 0a40184: historic
+                             variants that no code implements any more; the statements about them in Part B
+                             document the two defects and are tied to no code today.
+
+   `fixed14` = the key is blanked right after the configuration is loaded (fix F14);
    `fixed15` = WandBConfig declares `run_id` (fix F15). *)
 Definition reference (fixed14 fixed15 : bool) : eff :=
   block [
@@ -690,10 +759,13 @@ Definition reference (fixed14 fixed15 : bool) : eff :=
       If (COpaque 1) (block [Do (ASet 1 true); Do (ASet 2 true)]) Skip;   (* max_height / max_width *)
       If (COpaque 2) (If (COpaque 3) (Do (ASet 3 true)) Skip) Skip;       (* crop_hw *)
       Do (ASet 4 true);                                                   (* data_config.skeletons := {} *)
-      Loop 0 (Do (ASet 5 true));                                          (* skeletons[name] := ... *)
-      Loop 1 (block [If (COpaque 4) (If (COpaque 5) (Do (ASet 6 true)) Skip) Skip;
-                     If (COpaque 6) (If (COpaque 7) (Do (ASet 7 true)) Skip) Skip])
+      Loop 0 (Do (ASet 5 true))                                           (* skeletons[name] := ... *)
     ]);
+    (* part_names / edges filled in from the skeleton: since fix F131 (373d053) also when chunks are re-used
+       (before it this loop sat inside the branch above; the placement of these declared mutations is not
+       observable and no statement of Part B depends on it) *)
+    Loop 1 (block [If (COpaque 4) (If (COpaque 5) (Do (ASet 6 true)) Skip) Skip;
+                   If (COpaque 6) (If (COpaque 7) (Do (ASet 7 true)) Skip) Skip]);
     If (CFlag RankZero) (Do (AWrite FTraining true)) Skip;
     If (CAnd (CNot (CFlag UseExisting)) (COr (CFlag FwLitdata) (CFlag FwNpChunks)))
        (If (CFlag RankZero) (Do (AWrite FChunkCfg true)) Skip) Skip;
@@ -704,10 +776,21 @@ Definition reference (fixed14 fixed15 : bool) : eff :=
        Do AMask;
        If (CFlag RankZero) (Do (AWrite FWandbRun false)) Skip]) Skip;
     If (CFlag RankZero) (Do (AWrite FTraining false)) Skip;
-    If (CFlag FwLitdata) Skip
-       (If (COr (CFlag FwTorch) (CFlag FwNpChunks)) Skip (Do ARaise));
+    (* data loaders: the litdata path runs the get_bin_files subprocess (unless chunks are re-used) and opens
+       streaming datasets on the chunk directories; the torch_dataset path constructs datasets that write (or, on
+       re-use, read) npz chunks when `self.np_chunks` — np framework, or in-memory framework after the fallback *)
+    If (CFlag FwLitdata)
+       (block [If (CFlag UseExisting) Skip (block [Do (AMkChunks RmLitTrain); Do (AMkChunks RmLitVal)]);
+               Do (AMkChunks RmLitTrain); Do (AMkChunks RmLitVal)])
+       (If (COr (CFlag FwTorch) (CFlag FwNpChunks))
+           (If (COr (CFlag FwNpChunks) (CAnd (CFlag FwTorch) (CFlag MemFallback)))
+               (block [Do (AMkChunks RmTrain); Do (AMkChunks RmVal)]) Skip)
+           (Do ARaise));
     If (COpaque 8) (If (COpaque 9) Skip (Do ARaise)) Skip;    (* unknown profiler name *)
-    Try (block [If (CFlag SaveCkpt) (Do (AWrite FCkpt false)) Skip; Do (ACall 0)])  (* Trainer.fit *)
+    (* Trainer.fit: the ModelCheckpoint(save_top_k, save_last) callback exists iff save_ckpt; it writes a top-k
+       file unless save_top_k == 0 and last.ckpt when save_last *)
+    Try (block [If (CAnd (CFlag SaveCkpt) (COr (CNot (CFlag SaveTopKZero)) (CFlag SaveLast)))
+                   (Do (AWrite FCkpt false)) Skip; Do (ACall 0)])
         true
         (block [
            If (CFlag UseWandb) (Do (ASet run_id_path fixed15)) Skip;    (* trainer_config.wandb.run_id *)
